@@ -102,6 +102,7 @@ def zooSpec : List (String × String × String) :=
    ("slice_forin_shrink_during", "0|go:[1 2 3]", "slice_forin_visits_removed_indices"),
    ("struct_promoted_enumeration", "true,x,true|A,B,Y,ZIn|A,B,Y,ZIn", "struct_promoted_fields_not_enumerated"),
    ("nested_container_identity", "true,true,true", "bridged_value_identity_not_preserved"),
-   ("setlength_thrown_value", "number:42|go:[1 2 3]", "slice_setlength_flattens_thrown_value")]
+   ("store_array_into_slice_elem", "stored:4,5|go:[{1 []}]|[[4 5]]|false|[[1 2]]|int:1", "store_array_into_slice_element_rejected"),
+   ("store_utf16_string_into_interface_elem", "stored:A|go:[{1 []}]|[[1]]|false|[[1 2]]|string:A", "store_utf16_string_into_interface_arrives_as_units")]
 
 end OttoVerif.C16.Spec
